@@ -68,22 +68,23 @@ class _BlackbirdExprPrinter(StrPrinter):
         return "1j"
 
 
-def _value_to_blackbird(v, tdm=False):
+def _value_to_blackbird(v, p_names=()):
     """Converts a single (non-array) argument value to its Blackbird script form.
 
     Args:
         v: a number, boolean, string, SymPy expression, or a list of these
-        tdm (bool): whether strings of the form ``p0`` refer to TDM arrays
+        p_names (Iterable[str]): names of the declared TDM arrays (``p0``, ``p1``, ...);
+            strings naming one of them are references and are not quoted
 
     Returns:
         str: the Blackbird representation of the value
     """
     if isinstance(v, (list, tuple)):
-        return "[{}]".format(", ".join(_value_to_blackbird(i, tdm) for i in v))
+        return "[{}]".format(", ".join(_value_to_blackbird(i, p_names) for i in v))
 
     if isinstance(v, str):
         # a p-type parameter (e.g. p0) is simply added as is
-        if tdm and _is_ptype(v):
+        if v in p_names:
             return v
         return '"{}"'.format(v)
 
@@ -428,7 +429,9 @@ class BlackbirdProgram:
             # line break
             script.append("")
 
-        is_tdm = self.programtype["name"] == "tdm"
+        p_names = set()
+        if self.programtype["name"] == "tdm":
+            p_names = {k for k, v in self._var.items() if _is_ptype(k) and isinstance(v, np.ndarray)}
 
         # loop through each quantum operation
         for op in self.operations:
@@ -461,7 +464,7 @@ class BlackbirdProgram:
 
                     else:
                         # strings, numbers, booleans, lists and free parameters
-                        args.append(_value_to_blackbird(v, is_tdm))
+                        args.append(_value_to_blackbird(v, p_names))
 
                 # loop through keyword argument
                 for k, v in op["kwargs"].items():
@@ -481,7 +484,7 @@ class BlackbirdProgram:
                         array_insert += len(bb_array)
 
                     else:
-                        kwargs.append("{}={}".format(k, _value_to_blackbird(v, is_tdm)))
+                        kwargs.append("{}={}".format(k, _value_to_blackbird(v, p_names)))
 
                 if args and kwargs:
                     arguments = "({}, {})".format(", ".join(args), ", ".join(kwargs))
